@@ -127,6 +127,12 @@ func (r *Reporter) formatPrettyError(violation Violation) string {
 		builder.WriteString("   = help: ")
 		builder.WriteString(codes.GetDocumentationURL(violation.GetCode()))
 		builder.WriteString("\n")
+	} else {
+		// No source to show (unreadable file, or a //line directive naming a file that is not there):
+		// the documentation link does not depend on the excerpt
+		builder.WriteString("   = help: ")
+		builder.WriteString(codes.GetDocumentationURL(violation.GetCode()))
+		builder.WriteString("\n")
 	}
 
 	return builder.String()
